@@ -244,5 +244,6 @@ func buildCorpus(thorough bool) []corpusCase {
 	cs = append(cs, dagCorpus()...)    // shared compounds at the item-count limit (dag.go)
 	cs = append(cs, jsonCorpus()...)   // typed JSON of stack items (itemjson.go)
 	cs = append(cs, entryCorpus()...)  // several decoding entry points, integrity fields (entries.go)
+	cs = append(cs, scopesCorpus()...) // JSON text of witness scopes (scopes.go)
 	return cs
 }
